@@ -674,6 +674,30 @@ def rule_r4(chk, prog):
               loc=fm.loc(fs), nontrivial=True)
 
 
+def _binder_values(f, store):
+    """Possible values of the stored expression: the expression itself, or
+    - for a local name - every value assigned to it inside the innermost
+    enclosing loop (e.g. sort = get_sort(term) / sort = None in a handler);
+    a name bound by tuple unpacking stands for itself."""
+    v = store.value
+    if not isinstance(v, ast.Name):
+        return {unparse(v)}
+    lp = getattr(store, '_parent', None)
+    while lp is not None and not isinstance(lp, (ast.For, ast.FunctionDef)):
+        lp = getattr(lp, '_parent', None)
+    vals = set()
+    for st in ast.walk(lp):
+        if isinstance(st, ast.Assign):
+            for t in st.targets:
+                if isinstance(t, ast.Name) and t.id == v.id:
+                    vals.add(unparse(st.value))
+                if isinstance(t, ast.Tuple) and any(
+                        isinstance(x, ast.Name) and x.id == v.id
+                        for x in t.elts):
+                    vals.add(v.id)
+    return vals or {v.id}
+
+
 # --------------------------------------------------------------------- R5
 def rule_r5(chk, prog):
     chk.rule('C16.R5', 'table construction: each declaration form stores '
@@ -705,10 +729,11 @@ def rule_r5(chk, prog):
                       f'the sort of a {cmd} is child {want[cmd]}, the symbol '
                       'child 1', loc=m.loc(s), nontrivial=True)
         else:
-            v = unparse(s.value)
-            ok = key == '__sort_lookup[sym.data]' and v in ('get_sort(term)',
-                                                            'term')
-            chk.check('C16.R5', where, f'binder: {key} = {v}', ok,
+            vals = _binder_values(f, s)
+            ok = key == '__sort_lookup[sym.data]' and (
+                (vals <= {'get_sort(term)', 'None'}
+                 and 'get_sort(term)' in vals) or vals == {'term'})
+            chk.check('C16.R5', where, f'binder: {key} = {sorted(vals)}', ok,
                       'a let/quantifier binder stores an unexpected sort',
                       loc=m.loc(s), nontrivial=True)
     chk.check('C16.R5', where, 'all three declaration forms handled',
@@ -728,8 +753,10 @@ def rule_r5(chk, prog):
         v = unparse(s.value)
         if any(pol and "is_operator_app(node, 'let')" == t
                for (t, pol) in facts):
-            chk.check('C16.R5', where, f'let binder sort = {v}',
-                      v == 'get_sort(term)', 'a let-bound symbol must get '
+            vals = _binder_values(f, s)
+            chk.check('C16.R5', where, f'let binder sort = {sorted(vals)}',
+                      'get_sort(term)' in vals and vals <= {
+                          'get_sort(term)', 'None'}, 'a let-bound symbol must get '
                       'the inferred sort of its term', loc=m.loc(s),
                       nontrivial=True)
         if any(pol and "forall" in t for (t, pol) in facts):
